@@ -165,67 +165,108 @@ def _single_shot(site: ast.AST, fi: Optional[FuncInfo]) -> Optional[str]:
 
 
 def rule_e(res: Results, idx: Index) -> None:
-    from ..layout import lin_of, list_layout, locate_slice, prefix_sums, show
+    from ..layout import atoms, index_range, lin_add, lin_of, list_layout, locate_slice, prefix_sums, show
     n_sites = 0
     n_slices = 0
+    IFACE_KW = {"output_names", "_outputs", "outputs", "inputs"}
     for m in idx.product_modules():
         if "/plugins/" not in m.rel:
             continue
         for fi in m.funcs.values():
             du = None
+            # (sequence name accessed, layout list name, first line the accesses count from)
+            targets: List[Tuple[str, str, int]] = []
             for c in walk_no_nested(fi.node):
-                if not isinstance(c, ast.Call):
+                if isinstance(c, ast.Call):
+                    kw = next((k for k in c.keywords if k.arg in ("output_names", "_outputs") and isinstance(k.value, ast.Name)), None)
+                    st = enclosing_stmt(c)
+                    if kw is not None and isinstance(st, ast.Assign) and len(st.targets) == 1 and isinstance(st.targets[0], ast.Name) and st.value is c:
+                        targets.append((st.targets[0].id, kw.value.id, c.lineno))
+                    for k in c.keywords:
+                        if k.arg in IFACE_KW and isinstance(k.value, ast.Name):
+                            targets.append((k.value.id, k.value.id, 0))
+                elif isinstance(c, ast.Assign) and isinstance(c.value, ast.Name) and any(isinstance(t, ast.Attribute) and t.attr in ("outputs", "inputs") for t in c.targets):
+                    targets.append((c.value.id, c.value.id, 0))
+            seen_t = set()
+            for seq, lst, from_line in targets:
+                if (seq, lst) in seen_t:
                     continue
-                kw = next((k for k in c.keywords if k.arg in ("output_names", "_outputs") and isinstance(k.value, ast.Name)), None)
-                if kw is None:
-                    continue
-                st = enclosing_stmt(c)
-                if not (isinstance(st, ast.Assign) and len(st.targets) == 1 and isinstance(st.targets[0], ast.Name) and st.value is c):
-                    continue
+                seen_t.add((seq, lst))
                 du = du or defuse(fi.node)
-                secs = list_layout(fi.node, du, kw.value.id)
-                if secs is None or len(secs) < 2:
+                secs = list_layout(fi.node, du, lst)
+                if secs is None or len(secs) < 3:
                     continue
-                rname = st.targets[0].id
-                slices = [x for x in walk_no_nested(fi.node) if isinstance(x, ast.Subscript) and isinstance(x.value, ast.Name) and x.value.id == rname and isinstance(x.slice, ast.Slice) and x.slice.step is None and x.lineno > c.lineno]
-                if not slices:
+                ps = prefix_sums(secs)
+                layout_atoms = set()
+                for x_ in secs:
+                    layout_atoms |= atoms(x_.length)
+                accesses = [x for x in walk_no_nested(fi.node) if isinstance(x, ast.Subscript) and isinstance(x.value, ast.Name) and x.value.id == seq and x.lineno > from_line]
+                if not accesses:
                     continue
                 n_sites += 1
-                ps = prefix_sums(secs)
-                for sl in slices:
-                    n_slices += 1
-                    lo = lin_of(sl.slice.lower, du)
-                    hi = lin_of(sl.slice.upper, du) if sl.slice.upper is not None else ps[-1]
-                    key = f"{m.rel}::{fi.qualname}::{rname}[{src(sl.slice.lower) if sl.slice.lower is not None else ''}:{src(sl.slice.upper) if sl.slice.upper is not None else ''}]"
+                bounds = ", ".join(show(p_) for p_ in ps)
+                for sl in accesses:
                     site = f"{m.rel}:{sl.lineno}"
-                    if lo is None or hi is None:
-                        res.unresolved("R-C03e", site, key, "slice bounds are not linear in section lengths", fi.qualname)
-                        continue
-                    loc = locate_slice(secs, lo, hi)
-                    if loc is None:
-                        res.violation("R-C03e", site, key, f"slice [{show(lo)} : {show(hi)}] of `{rname}` does not coincide with sections of `{kw.value.id}` (section boundaries: {', '.join(show(p) for p in ps)}): the values stamped from it belong to a different group of the node's outputs", fi.qualname)
-                        continue
-                    a, b = loc
-                    covered = [x for x in secs[a:b] if x.length]
-                    # the collection the slice is paired with
-                    tgt = None
-                    pst = enclosing_stmt(sl)
-                    if isinstance(pst, ast.Assign) and len(pst.targets) == 1 and isinstance(pst.targets[0], ast.Name) and pst.value is sl:
-                        tgt = pst.targets[0].id
-                    partners = []
-                    for z in walk_no_nested(fi.node):
-                        if isinstance(z, ast.Call) and (call_name(z) or "") == "zip" and len(z.args) == 2:
-                            for i in (0, 1):
-                                if (isinstance(z.args[i], ast.Name) and z.args[i].id == tgt) or z.args[i] is sl:
-                                    d = dotted(z.args[1 - i])
-                                    if d:
-                                        partners.append(d)
-                    srcs = [x.source for x in covered]
-                    bad = [p_ for p_ in partners if srcs and (len(srcs) != 1 or (not srcs[0].startswith("<") and p_ != srcs[0]))]
-                    if bad:
-                        res.violation("R-C03e", site, key, f"the slice covers the outputs declared for {srcs} but is zipped item by item with `{bad[0]}`", fi.qualname)
+                    if isinstance(sl.slice, ast.Slice):
+                        if sl.slice.step is not None:
+                            continue
+                        n_slices += 1
+                        lo = lin_of(sl.slice.lower, du)
+                        hi = lin_of(sl.slice.upper, du) if sl.slice.upper is not None else ps[-1]
+                        key = f"{m.rel}::{fi.qualname}::{seq}[{src(sl.slice.lower) if sl.slice.lower is not None else ''}:{src(sl.slice.upper) if sl.slice.upper is not None else ''}]"
+                        if lo is None or hi is None:
+                            res.unresolved("R-C03e", site, key, "slice bounds are not linear in section lengths", fi.qualname)
+                            continue
+                        loc = locate_slice(secs, lo, hi)
+                        if loc is None:
+                            if not (atoms(lo) | atoms(hi)) <= layout_atoms:
+                                res.unresolved("R-C03e", site, key, f"slice [{show(lo)} : {show(hi)}] uses quantities the layout of `{lst}` is not expressed in ({bounds})", fi.qualname)
+                            else:
+                                res.violation("R-C03e", site, key, f"slice [{show(lo)} : {show(hi)}] of `{seq}` does not coincide with sections of `{lst}` (section boundaries: {bounds}): the values taken from it belong to a different group of the node's / body's values", fi.qualname)
+                            continue
+                        a, b = loc
+                        covered = [x for x in secs[a:b] if x.length]
+                        tgt = None
+                        pst = enclosing_stmt(sl)
+                        if isinstance(pst, ast.Assign) and len(pst.targets) == 1 and isinstance(pst.targets[0], ast.Name) and pst.value is sl:
+                            tgt = pst.targets[0].id
+                        partners = []
+                        for z in walk_no_nested(fi.node):
+                            if isinstance(z, ast.Call) and (call_name(z) or "") == "zip" and len(z.args) == 2:
+                                for i in (0, 1):
+                                    if (isinstance(z.args[i], ast.Name) and z.args[i].id == tgt) or z.args[i] is sl:
+                                        d = dotted(z.args[1 - i])
+                                        if d:
+                                            partners.append(d)
+                        srcs = [x.source for x in covered]
+                        bad = [p_ for p_ in partners if srcs and (len(srcs) != 1 or (not srcs[0].startswith("<") and "[" not in srcs[0] and "(" not in srcs[0] and p_ != srcs[0]))]
+                        if bad:
+                            res.violation("R-C03e", site, key, f"the slice covers the values declared for {srcs} but is zipped item by item with `{bad[0]}`", fi.qualname)
+                        else:
+                            res.ok("R-C03e", site, key, f"covers section(s) {srcs}" + (f", zipped with {sorted(set(partners))}" if partners else ""), fi.qualname)
                     else:
-                        res.ok("R-C03e", site, key, f"covers section(s) {srcs}" + (f", zipped with {sorted(set(partners))}" if partners else ""), fi.qualname)
+                        r = index_range(sl, du, fi.node)
+                        key = f"{m.rel}::{fi.qualname}::{seq}[{src(sl.slice, 50)}]"
+                        if r is None:
+                            continue  # not an offset + loop-index access
+                        n_slices += 1
+                        lo, trip, loop_txt = r
+                        ks = [i for i, p_ in enumerate(ps) if p_ == lo]
+                        if not ks:
+                            if not atoms(lo) <= layout_atoms:
+                                res.unresolved("R-C03e", site, key, f"offset {show(lo)} uses quantities the layout of `{lst}` is not expressed in ({bounds})", fi.qualname)
+                            else:
+                                res.violation("R-C03e", site, key, f"`{seq}[{src(sl.slice, 40)}]` starts at {show(lo)}, which is not a section boundary of `{lst}` ({bounds}): it addresses values of a different group", fi.qualname)
+                            continue
+                        if trip is None or not atoms(trip) <= layout_atoms:
+                            res.ok("R-C03e", site, key, f"starts at the boundary of section {secs[min(ks)].source if min(ks) < len(secs) else 'end'}; extent of `{loop_txt}` not comparable", fi.qualname)
+                            continue
+                        hi = lin_add(lo, trip)
+                        ke = [i for i, p_ in enumerate(ps) if p_ == hi]
+                        if ke and max(ke) >= min(ks):
+                            res.ok("R-C03e", site, key, f"covers section(s) {[x.source for x in secs[min(ks):max(ke)] if x.length]}", fi.qualname)
+                        else:
+                            res.violation("R-C03e", site, key, f"`{seq}[{src(sl.slice, 40)}]` over `{loop_txt}` covers [{show(lo)} : {show(hi)}], which does not end at a section boundary of `{lst}` ({bounds})", fi.qualname)
     res.analysed["sliced_output_layout_sites"] = n_sites
     res.analysed["output_slices"] = n_slices
     # positive control
@@ -260,7 +301,7 @@ def rule_e(res: Results, idx: Index) -> None:
 
 
 def run(res: Results, idx: Index, tier: str) -> None:
-    res.rule("R-C03e", "slices of a multi-output node's results coincide with the sections of its declared output-name list", floor=3)
+    res.rule("R-C03e", "slices and offset+index accesses into a node's result tuple / a body graph's interface list coincide with the sections the list was assembled from", floor=15)
     rule_e(res, idx)
     res.rule("R-C03a", "value names are fresh / existing / derived / interface; a literal name must be single-shot per scope", floor=1500)
     res.rule("R-C03b", "contexts are created by the scope constructors only; nested scopes prefix both name allocators", floor=3)
